@@ -33,6 +33,9 @@ type WJob struct {
 	SettleMs int `json:"settle_ms,omitempty"`
 	// Reexec > 1: the same Query object is executed this many times
 	Reexec int `json:"reexec,omitempty"`
+	// Burst > 0: the query is constructed and executed this many times with the fault plan in force, then once
+	// more without faults; the job's outcome is that of the last run unless a panic escaped earlier
+	Burst int `json:"burst,omitempty"`
 	// batch (C13)
 	Batch *C13Batch `json:"batch,omitempty"`
 }
@@ -105,6 +108,19 @@ func runJob(job *WJob) WResult {
 	}
 	injReset(job.FailAt, job.Panic)
 	var o Out
+	if job.Burst > 0 {
+		for i := 0; i < job.Burst; i++ {
+			injReset(job.FailAt, job.Panic)
+			if ob := Run(doc, job.SQL, job.Opts); ob.Panic != "" {
+				res.Status, res.Detail = "panic", fmt.Sprintf("round %d of the burst: %s", i+1, ob.Panic)
+				return res
+			}
+		}
+		if job.SettleMs > 0 {
+			time.Sleep(time.Duration(job.SettleMs) * time.Millisecond)
+		}
+		injReset(0, 0)
+	}
 	if job.Reexec > 1 {
 		o = RunN(doc, job.SQL, job.Opts, job.Reexec)
 	} else {
